@@ -285,7 +285,8 @@ static void run(const Case &c, Ctx &ctx) {
         PBT_CHECK(res <= 5 * PAGE, "%s: everything released but bytes_reserved is %zu (> one page per size class)", when, res);
         PBT_CHECK(w.pages.size() <= 5, "%s: everything released but %zu pages are still alive", when, w.pages.size());
         std::map<size_t, int> per;
-        for (auto &kv : w.pages) per[kv.second.cls]++;
+        for (auto &kv : w.pages)
+            if (kv.second.cls) per[kv.second.cls]++; // a page no block was ever seen in has no known class: it only counts towards the total
         for (auto &kv : per)
             PBT_CHECK(kv.second <= 1, "%s: everything released but class %zu keeps %d pages", when, kv.first, kv.second);
         // (the allocator's own bookkeeping lists come from the parent too and may sit in a kept page)
